@@ -45,17 +45,18 @@ theorem npAllEq_same {a b : List Fl} (h : a.length = b.length) :
 
 /-! ### weightings -/
 
-/-- canonical key of a weighting: class family forgotten, floats as seen by `==` -/
+/-- canonical key of a weighting: floats as seen by `==` -/
 def Weighting.key : Weighting → Weighting
-  | .const _ c e => .const .np c.canon e.canon
-  | .array _ i e => .array .np i e.canon
-  | .inner _ f => .inner .np f
-  | .norm _ f => .norm .np f
-  | .dist _ f => .dist .np f
+  | .const k c e => .const k c.canon e.canon
+  | .array k i e => .array k i e.canon
+  | .inner k f => .inner k f
+  | .norm k f => .norm k f
+  | .dist k f => .dist k f
 
 theorem Weighting.eqI_iff (a b : Weighting) : a.eqI b = true ↔ a.key = b.key := by
   cases a <;> cases b <;>
-    simp [Weighting.eqI, Weighting.baseEq, Weighting.exponent, Weighting.key, Fl.numEq_iff] <;>
+    simp [Weighting.eqI, Weighting.baseEq, Weighting.exponent, Weighting.key, Weighting.cls,
+      Fl.numEq_iff] <;>
     grind
 
 /-! ### interval products, grids, partitions -/
@@ -65,20 +66,38 @@ def IntervalProd.key (a : IntervalProd) : List Fl × List Fl :=
 
 def IntervalProd.wf (a : IntervalProd) : Prop := a.lo.length = a.hi.length
 
-theorem IntervalProd.eqO_same {a b : IntervalProd} (ha : a.wf) (hb : b.wf)
-    (h : a.ndim = b.ndim) : a.eqO b = some (flAllEq a.lo b.lo && flAllEq a.hi b.hi) := by
+theorem IntervalProd.eqOld_same {a b : IntervalProd} (ha : a.wf) (hb : b.wf)
+    (h : a.ndim = b.ndim) : a.eqOld b = some (flAllEq a.lo b.lo && flAllEq a.hi b.hi) := by
   have h1 : a.lo.length = b.lo.length := h
   have h2 : a.hi.length = b.hi.length := by rw [← ha, ← hb]; exact h
-  unfold IntervalProd.eqO
+  unfold IntervalProd.eqOld
   rw [npAllEq_same h1, npAllEq_same h2]
   cases flAllEq a.lo b.lo <;> simp
 
-theorem IntervalProd.eqO_iff {a b : IntervalProd} (ha : a.wf) (hb : b.wf)
-    (h : a.ndim = b.ndim) : a.eqO b = some true ↔ a.key = b.key := by
-  have h1 : a.lo.length = b.lo.length := h
-  have h2 : a.hi.length = b.hi.length := by rw [← ha, ← hb]; exact h
-  rw [IntervalProd.eqO_same ha hb h]
-  simp [IntervalProd.key, flAllEq_iff _ _ h1, flAllEq_iff _ _ h2]
+theorem IntervalProd.eqO_same {a b : IntervalProd} (ha : a.wf) (hb : b.wf)
+    (h : a.ndim = b.ndim) : a.eqO b = some (flAllEq a.lo b.lo && flAllEq a.hi b.hi) := by
+  unfold IntervalProd.eqO
+  rw [if_pos h, IntervalProd.eqOld_same ha hb h]
+
+/-- with the `ndim` guard the comparison never raises (on well-formed interval products) -/
+theorem IntervalProd.eqO_total {a b : IntervalProd} (ha : a.wf) (hb : b.wf) :
+    (a.eqO b).isSome = true := by
+  by_cases h : a.ndim = b.ndim
+  · rw [IntervalProd.eqO_same ha hb h]; rfl
+  · simp [IntervalProd.eqO, h]
+
+theorem IntervalProd.eqO_iff {a b : IntervalProd} (ha : a.wf) (hb : b.wf) :
+    a.eqO b = some true ↔ a.key = b.key := by
+  by_cases h : a.ndim = b.ndim
+  · have h1 : a.lo.length = b.lo.length := h
+    have h2 : a.hi.length = b.hi.length := by rw [← ha, ← hb]; exact h
+    rw [IntervalProd.eqO_same ha hb h]
+    simp [IntervalProd.key, flAllEq_iff _ _ h1, flAllEq_iff _ _ h2]
+  · simp only [IntervalProd.eqO, h, if_false, Option.some.injEq, Bool.false_eq_true, false_iff]
+    intro hk
+    apply h
+    have := congrArg (fun p => p.1.length) hk
+    simpa [IntervalProd.key, IntervalProd.ndim] using this
 
 theorem IntervalProd.hk_of_key {a b : IntervalProd} (h : a.key = b.key) : a.hk = b.hk := by
   have e : ∀ l : List Fl, l.map hkFloat = (l.map Fl.canon).map (fun f => [HTok.fl f]) := by
@@ -103,36 +122,36 @@ theorem Grid.eqI_iff (a b : Grid) : a.eqI b = true ↔ a.key = b.key := by
       simpa [Grid.shape, List.map_map, Function.comp_def] using this
     simp [hs, (vecsAllEq_iff _ _ hl).2 h]
 
-/-- no coordinate is `-0.0` -/
-def Grid.noNegZero (g : Grid) : Prop := ∀ v ∈ g.vecs, ∀ x ∈ v, x ≠ Fl.negZero
-
-theorem Fl.canon_of_ne {x : Fl} (h : x ≠ Fl.negZero) : x.canon = x := by
-  cases x <;> simp_all [Fl.canon]
-
-theorem Grid.key_eq_vecs {g : Grid} (h : g.noNegZero) : g.key = g.vecs := by
-  unfold Grid.key
-  conv => rhs; rw [← List.map_id g.vecs]
-  apply List.map_congr_left
-  intro v hv
-  conv => rhs; rw [id, ← List.map_id v]
-  apply List.map_congr_left
-  intro x hx
-  exact Fl.canon_of_ne (h v hv x hx)
+theorem Grid.hk_of_key {a b : Grid} (h : a.key = b.key) : a.hk = b.hk := by
+  have e : ∀ g : Grid, (g.vecs.map fun v => hkBytes (v.map Fl.canon)) = g.key.map hkBytes := by
+    intro g; simp [Grid.key, List.map_map, Function.comp_def]
+  simp [Grid.hk, e, h]
 
 def Partition.wf (p : Partition) : Prop := p.set.wf ∧ p.set.ndim = p.grid.vecs.length
 
 def Partition.key (p : Partition) : (List Fl × List Fl) × List (List Fl) := (p.set.key, p.grid.key)
 
-theorem Partition.eqO_iff {a b : Partition} (ha : a.wf) (hb : b.wf)
-    (h : a.set.ndim = b.set.ndim) : a.eqO b = some true ↔ a.key = b.key := by
+theorem Partition.eqO_total {a b : Partition} (ha : a.wf) (hb : b.wf) :
+    (a.eqO b).isSome = true := by
   unfold Partition.eqO
-  have := IntervalProd.eqO_iff ha.1 hb.1 h
-  rw [IntervalProd.eqO_same ha.1 hb.1 h] at this ⊢
-  cases hc : (flAllEq a.set.lo b.set.lo && flAllEq a.set.hi b.set.hi)
-  · simp [hc] at this ⊢
-    simp [Partition.key, this]
-  · simp [hc] at this ⊢
-    simp [Partition.key, this, Grid.eqI_iff]
+  have := IntervalProd.eqO_total ha.1 hb.1
+  cases h : a.set.eqO b.set with
+  | none => simp [h] at this
+  | some r => cases r <;> simp
+
+theorem Partition.eqO_iff {a b : Partition} (ha : a.wf) (hb : b.wf) :
+    a.eqO b = some true ↔ a.key = b.key := by
+  unfold Partition.eqO
+  have hi := IntervalProd.eqO_iff ha.1 hb.1
+  have ht := IntervalProd.eqO_total ha.1 hb.1
+  cases h : a.set.eqO b.set with
+  | none => simp [h] at ht
+  | some r =>
+    cases r
+    · simp [h] at hi ⊢
+      simp [Partition.key, hi]
+    · simp [h] at hi ⊢
+      simp [Partition.key, hi, Grid.eqI_iff]
 
 /-! ### spaces -/
 
@@ -149,14 +168,11 @@ theorem Discr.ndim_of_shape {a b : Discr} (h : a.shape = b.shape) :
   have := congrArg List.length h
   simpa [Discr.shape, Discr.part, IntervalProd.ndim] using this
 
-/-- Once the shapes agree, the partition comparison inside `DiscretizedSpace.__eq__` cannot
-raise (the `none` outcome of `Partition.eqO` is unreachable). -/
-theorem Discr.part_eq_total {a b : Discr} (h : a.shape = b.shape) :
-    (Partition.eqO b.part a.part).isSome = true := by
-  have hn := (Discr.ndim_of_shape h).symm
-  unfold Partition.eqO
-  rw [IntervalProd.eqO_same b.part_wf.1 a.part_wf.1 hn]
-  cases (flAllEq b.part.set.lo a.part.set.lo && flAllEq b.part.set.hi a.part.set.hi) <;> simp
+/-- The partition comparison inside `DiscretizedSpace.__eq__` cannot raise (the `none`
+outcome of `Partition.eqO` is unreachable). -/
+theorem Discr.part_eq_total (a b : Discr) :
+    (Partition.eqO b.part a.part).isSome = true :=
+  Partition.eqO_total b.part_wf a.part_wf
 
 def Discr.key (d : Discr) :=
   (d.shape, d.dtype, d.w.key, d.part.key)
@@ -167,16 +183,14 @@ theorem Discr.eqI_iff (a b : Discr) : a.eqI b = true ↔ a.key = b.key := by
   · intro h
     simp only [Bool.and_eq_true, decide_eq_true_eq, beq_iff_eq] at h
     obtain ⟨⟨⟨hs, hd⟩, ht⟩, hp⟩ := h
-    have hn := (Discr.ndim_of_shape hs).symm
-    have hk := (Partition.eqO_iff b.part_wf a.part_wf hn).1 hp
+    have hk := (Partition.eqO_iff b.part_wf a.part_wf).1 hp
     have hw := ((TSpace.eqI_iff _ _).1 ht)
     simp only [TSpace.key, Discr.tspace, Prod.mk.injEq] at hw
     simp [hs, hd, hk, hw.2.2]
   · intro h
     simp only [Prod.mk.injEq] at h
     obtain ⟨hs, hd, hw, hp⟩ := h
-    have hn := (Discr.ndim_of_shape hs).symm
-    have hk := (Partition.eqO_iff b.part_wf a.part_wf hn).2 hp.symm
+    have hk := (Partition.eqO_iff b.part_wf a.part_wf).2 hp.symm
     have ht : b.tspace.eqI a.tspace = true := by
       rw [TSpace.eqI_iff]; simp [TSpace.key, Discr.tspace, hs, hd, hw]
     simp [hs, hd, ht, hk]
@@ -231,80 +245,52 @@ end
 theorem Fl.canon_canon (x : Fl) : x.canon.canon = x.canon := by
   cases x <;> simp [Fl.canon]
 
-theorem Weighting.hk_of_key (heap : Nat → String) {a b : Weighting} (h : a.key = b.key)
-    (hc : a.cls = b.cls) : a.hk heap = b.hk heap := by
-  cases a <;> cases b <;> simp_all [Weighting.key, Weighting.cls, Weighting.hk, hkFloat,
-    Weighting.baseHk]
+theorem Weighting.hk_of_key (heap : Nat → String) {a b : Weighting} (h : a.key = b.key) :
+    a.hk heap = b.hk heap := by
+  cases a <;> cases b <;> simp_all [Weighting.key, Weighting.hk, hkFloat, Weighting.baseHk]
   next c1 a1 e1 c2 a2 e2 => cases c2 <;> simp [h]
 
-theorem TSpace.hk_of_key (heap : Nat → String) {a b : TSpace} (h : a.key = b.key)
-    (hc : a.w.cls = b.w.cls) : a.hk heap = b.hk heap := by
+theorem TSpace.hk_of_key (heap : Nat → String) {a b : TSpace} (h : a.key = b.key) :
+    a.hk heap = b.hk heap := by
   simp only [TSpace.key, Prod.mk.injEq] at h
-  simp [TSpace.hk, h.1, h.2.1, Weighting.hk_of_key heap h.2.2 hc]
+  simp [TSpace.hk, h.1, h.2.1, Weighting.hk_of_key heap h.2.2]
 
-theorem Grid.hk_of_key {a b : Grid} (h : a.key = b.key) (ha : a.noNegZero) (hb : b.noNegZero) :
-    a.hk = b.hk := by
-  rw [Grid.key_eq_vecs ha, Grid.key_eq_vecs hb] at h
-  simp [Grid.hk, h]
-
-theorem Partition.hk_of_key {a b : Partition} (h : a.key = b.key) (ha : a.grid.noNegZero)
-    (hb : b.grid.noNegZero) : a.hk = b.hk := by
+theorem Partition.hk_of_key {a b : Partition} (h : a.key = b.key) : a.hk = b.hk := by
   simp only [Partition.key, Prod.mk.injEq] at h
-  simp [Partition.hk, IntervalProd.hk_of_key h.1, Grid.hk_of_key h.2 ha hb]
+  simp [Partition.hk, IntervalProd.hk_of_key h.1, Grid.hk_of_key h.2]
 
-theorem Discr.hk_of_key (heap : Nat → String) {a b : Discr} (h : a.key = b.key)
-    (hc : a.w.cls = b.w.cls) (ha : a.part.grid.noNegZero) (hb : b.part.grid.noNegZero) :
+theorem Discr.hk_of_key (heap : Nat → String) {a b : Discr} (h : a.key = b.key) :
     a.hk heap = b.hk heap := by
   simp only [Discr.key, Prod.mk.injEq] at h
   obtain ⟨hs, hd, hw, hp⟩ := h
   have ht : a.tspace.hk heap = b.tspace.hk heap :=
-    TSpace.hk_of_key heap (by simp [TSpace.key, Discr.tspace, hs, hd, hw]) hc
-  have hpk : a.part.hk = b.part.hk := Partition.hk_of_key hp ha hb
+    TSpace.hk_of_key heap (by simp [TSpace.key, Discr.tspace, hs, hd, hw])
+  have hpk : a.part.hk = b.part.hk := Partition.hk_of_key hp
   simp [Discr.hk, hs, hd, ht, hpk]
 
 mutual
-/-- Weighting classes are the native ones of the space class (tensor / discretized spaces
-hold `NumpyTensorSpace…` weightings, product spaces `ProductSpace…` weightings) and no grid
-coordinate is `-0.0`. -/
-def Space.wfH : Space → Prop
-  | .tensor t => t.w.cls = .np
-  | .discr d => d.w.cls = .np ∧ d.part.grid.noNegZero
-  | .prod l w _ => w.cls = .ps ∧ Space.wfHL l
-def Space.wfHL : List Space → Prop
-  | [] => True
-  | a :: l => a.wfH ∧ Space.wfHL l
-end
-
-mutual
-theorem Space.hk_of_key (heap : Nat → String) : (a b : Space) → a.key = b.key → a.wfH → b.wfH →
+theorem Space.hk_of_key (heap : Nat → String) : (a b : Space) → a.key = b.key →
     a.hk heap = b.hk heap
-  | .tensor a, .tensor b, h, ha, hb => by
+  | .tensor a, .tensor b, h => by
       simp only [Space.key, SKey.tensor.injEq] at h
-      simp only [Space.wfH] at ha hb
-      simp [Space.hk, TSpace.hk_of_key heap h (by rw [ha, hb])]
-  | .discr a, .discr b, h, ha, hb => by
+      simp [Space.hk, TSpace.hk_of_key heap h]
+  | .discr a, .discr b, h => by
       simp only [Space.key, SKey.discr.injEq] at h
-      simp only [Space.wfH] at ha hb
-      simp [Space.hk, Discr.hk_of_key heap h (by rw [ha.1, hb.1]) ha.2 hb.2]
-  | .prod l w _, .prod l' w' _, h, ha, hb => by
+      simp [Space.hk, Discr.hk_of_key heap h]
+  | .prod l w _, .prod l' w' _, h => by
       simp only [Space.key, SKey.prod.injEq] at h
-      simp only [Space.wfH] at ha hb
-      simp [Space.hk, Space.hkL_of_key heap l l' h.1 ha.2 hb.2,
-        Weighting.hk_of_key heap h.2 (by rw [ha.1, hb.1])]
-  | .tensor _, .discr _, h, _, _ | .tensor _, .prod .., h, _, _ | .discr _, .tensor _, h, _, _
-  | .discr _, .prod .., h, _, _ | .prod .., .tensor _, h, _, _ | .prod .., .discr _, h, _, _ => by
+      simp [Space.hk, Space.hkL_of_key heap l l' h.1, Weighting.hk_of_key heap h.2]
+  | .tensor _, .discr _, h | .tensor _, .prod .., h | .discr _, .tensor _, h
+  | .discr _, .prod .., h | .prod .., .tensor _, h | .prod .., .discr _, h => by
       simp [Space.key] at h
 theorem Space.hkL_of_key (heap : Nat → String) : (l l' : List Space) →
-    Space.keyL l = Space.keyL l' → Space.wfHL l → Space.wfHL l' →
-    Space.hkL heap l = Space.hkL heap l'
-  | [], [], _, _, _ => rfl
-  | [], _ :: _, h, _, _ => by simp [Space.keyL] at h
-  | _ :: _, [], h, _, _ => by simp [Space.keyL] at h
-  | a :: l, b :: l', h, ha, hb => by
+    Space.keyL l = Space.keyL l' → Space.hkL heap l = Space.hkL heap l'
+  | [], [], _ => rfl
+  | [], _ :: _, h => by simp [Space.keyL] at h
+  | _ :: _, [], h => by simp [Space.keyL] at h
+  | a :: l, b :: l', h => by
       simp only [Space.keyL, List.cons.injEq] at h
-      simp only [Space.wfHL] at ha hb
-      simp [Space.hkL, Space.hk_of_key heap a b h.1 ha.1 hb.1,
-        Space.hkL_of_key heap l l' h.2 ha.2 hb.2]
+      simp [Space.hkL, Space.hk_of_key heap a b h.1, Space.hkL_of_key heap l l' h.2]
 end
 
 /-! ### composite sets over members whose `==` is total -/
@@ -397,17 +383,18 @@ end composite
 
 inductive LKey
   | emptySet | universalSet | strings (n : Nat) | complexNumbers | realNumbers | integers
-  | grid (k : List (List Fl)) | space (k : SKey) | other
+  | interval (k : List Fl × List Fl) | grid (k : List (List Fl)) | space (k : SKey) | other
 
 def Leaf.key : Leaf → LKey
   | .emptySet => .emptySet | .universalSet => .universalSet | .strings n => .strings n
   | .complexNumbers => .complexNumbers | .realNumbers => .realNumbers | .integers => .integers
-  | .grid g => .grid g.key | .space s => .space s.key
+  | .interval ip => .interval ip.key | .grid g => .grid g.key | .space s => .space s.key
   | _ => .other
 
-/-- members other than interval products (finding C20-F1) and finite sets -/
+/-- members other than finite sets; interval products well formed (`len(min_pt) ==
+len(max_pt)`, enforced by the constructor) -/
 def Leaf.simple : Leaf → Prop
-  | .interval _ => False
+  | .interval ip => ip.wf
   | .finite _ => False
   | _ => True
 
@@ -416,11 +403,20 @@ def Leaf.eqB (a b : Leaf) : Bool := (a.eqO b).getD false
 theorem Leaf.eqO_simple (a b : Leaf) (ha : a.simple) (hb : b.simple) :
     a.eqO b = some (a.eqB b) := by
   cases a <;> cases b <;> simp_all [Leaf.simple, Leaf.eqB, Leaf.eqO]
+  next x y =>
+    have := IntervalProd.eqO_total ha hb
+    cases h : x.eqO y <;> simp_all
 
 theorem Leaf.eqB_iff (a b : Leaf) (ha : a.simple) (hb : b.simple) :
     a.eqB b = true ↔ a.key = b.key := by
   cases a <;> cases b <;>
-    simp_all [Leaf.simple, Leaf.eqB, Leaf.eqO, Leaf.key, Grid.eqI_iff, Space.eqI_iff] <;>
-    exact eq_comm
+    simp_all [Leaf.simple, Leaf.eqB, Leaf.eqO, Leaf.key, Grid.eqI_iff, Space.eqI_iff]
+  all_goals first
+    | exact eq_comm
+    | (next x y =>
+        have := IntervalProd.eqO_iff ha hb
+        cases h : x.eqO y with
+        | none => simp_all
+        | some r => cases r <;> simp_all)
 
 end OdlModel.Spaces
